@@ -320,3 +320,23 @@ Fixpoint session_ok (lazy : bool) (v : variant) (t1 t2 : Z) (st : pstate) (sel :
   | [] => True
   | h :: tl => session_ok lazy v t1 t2 (fold_left (step v) h (snd r)) (fst r) tl
   end.
+
+(* ---- the snapshot file cindex.dat and a CRASH (the process dies without close()) ----
+   cindex.close() writes the infos to cindex.dat at a clean shutdown only; cindex.init() loads the file and REMOVES it,
+   so while the server runs there is no snapshot on disk and a crash leaves none: the next start knows nothing (HDrop)
+   and collects the information from the chunks again. `keep` = true describes an init() that leaves the loaded file in
+   place (refuted in props/C02.v: after a clean restart, more writes and a crash, the stale snapshot is loaded again).
+   The state is the partition's state and what cindex.dat holds. *)
+Inductive lop := LOp (o : op) | LCrash.
+Definition lstep (keep : bool) (v : variant) (s : pstate * option cindex) (o : lop) : pstate * option cindex :=
+  let '(st, snap) := s in
+  match o with
+  | LOp HRestart => (step v st HRestart, if keep then Some (ci_restart (p_ci st)) else None)
+  | LOp HDrop => (step v st HDrop, None)                       (* the index directory is lost altogether *)
+  | LOp o' => (step v st o', snap)
+  | LCrash => (mkp (p_chunks st) (match snap with Some c => c | None => [] end) [], snap)
+  end.
+Definition lrun (keep : bool) (v : variant) (ops : list lop) (s : pstate * option cindex) : pstate * option cindex :=
+  fold_left (lstep keep v) ops s.
+(* a crash seen as an operation of the histories of the theorems: the index is lost *)
+Definition crash_as_drop (o : lop) : op := match o with LOp o' => o' | LCrash => HDrop end.
